@@ -380,3 +380,76 @@ def show_atom(a: Atom) -> str:
     if k == "opaque":
         return f"<{a[1]}>"
     return repr(a)
+
+
+# ---- piecewise definitions ----------------------------------------------------
+
+_HOLD = {"<": {"lt"}, "<=": {"lt", "eq"}, "==": {"eq"}, "!=": {"lt", "gt"}, ">=": {"eq", "gt"}, ">": {"gt"}}
+_FLIP = {"<": ">", "<=": ">=", "==": "==", "!=": "!=", ">=": "<=", ">": "<"}
+
+
+def _single_var(d: Poly) -> Optional[Tuple[str, int, int]]:
+    """d == s*x + c for a variable x, s in {1,-1}: returns (x, s, c)."""
+    name, s, c = None, 0, 0
+    for m, cf in d.terms.items():
+        if m == ():
+            c = cf
+        elif len(m) == 1 and m[0][1] == 1 and m[0][0][0] == "var" and name is None and cf in (1, -1):
+            name, s = m[0][0][1], cf
+        else:
+            return None
+    if name is None:
+        return None
+    return name, s, c
+
+
+def piecewise(branches: List[Tuple[Optional[Tuple[str, Poly, Poly]], Poly]], general: Poly) -> Optional[Poly]:
+    """Canonical value of `if t1: return v1 ... else: return general` when every
+    test compares the same quantity d = l - r with zero.  The result does not
+    depend on the order or polarity the tests are written in: the three
+    regions d<0, d==0, d>0 are evaluated and then merged / recognised."""
+    if not branches:
+        return general
+    if any(t is None for t, _ in branches):
+        return None
+    op0, l0, r0 = branches[0][0]  # type: ignore[misc]
+    d0 = l0 - r0
+    norm: List[Tuple[str, Poly]] = []
+    for t, v in branches:
+        op, l, r = t  # type: ignore[misc]
+        if op not in _HOLD:
+            return None
+        d = l - r
+        if d == d0:
+            norm.append((op, v))
+        elif d == -d0:
+            norm.append((_FLIP[op], v))
+        else:
+            return None
+    reg = {r: next((v for op, v in norm if r in _HOLD[op]), general) for r in ("lt", "eq", "gt")}
+    lt, eq, gt = reg["lt"], reg["eq"], reg["gt"]
+    if lt == eq and eq == gt:
+        return eq
+    sv = _single_var(d0)
+    if sv is not None:
+        x, s, c = sv
+        at = C(-c * s)  # d0 == 0  <=>  x == -c/s
+        if lt == gt and lt.subst(x, at) == eq.subst(x, at):
+            return lt
+    # signed shift: d>0 -> n >> d ; d<0 -> n << -d ; d==0 -> n
+    for k, pos, neg in ((d0, gt, lt), (-d0, lt, gt)):
+        n = eq
+        if pos == shr(n, k) and neg == shl(n, -k):
+            return sshift(n, k)
+    # min(l0, r0)
+    if lt == l0 and gt == r0 and (eq == l0 or eq == r0):
+        return vmin([l0, r0])
+    # canonical three-region form (sign of d fixed by its smallest monomial)
+    flip = False
+    ks = sorted(d0.terms.items(), key=lambda mc: _mono_key(mc[0]))
+    lead = next((cf for m, cf in ks if m != ()), 1)
+    if lead < 0:
+        flip = True
+    if flip:
+        return Poly.atom(("ite3", -d0, gt, eq, lt))
+    return Poly.atom(("ite3", d0, lt, eq, gt))
